@@ -51,7 +51,11 @@ RULE = ("histories = one grid of at most 12 cells (discrete: OrthogonalMoore / O
         "mutation) in list and mask form, PropertyLayer.select_cells, aggregate (sum / max / min / mean), get_neighborhood_mask "
         "(radius up to 9, empty neighbourhoods, asked twice with the first result modified), 144 dtype probes per run, a sibling "
         "grid of the same class alive in the same process; plus two structured families every run (all agent rejections and all "
-        "directions on small grids; int64 values beyond 2^53) and an ORACLE-ONLY stream of float layers with non-dyadic values "
+        "directions on small grids; int64 values beyond 2^53; int64 values WITHIN one float64 spacing of each other around +-2^53, "
+        "2^62, 2^63-1, -2^63 and nanosecond timestamps, selected by highest / lowest / conditions / masks / only_empty - model-checked, Z is "
+        "unbounded), an ORACLE-ONLY edge / scale stream (int64, uint8, int8, float32, float64, bool layers holding their extreme values, "
+        "inf, -inf, -0.0, NaN in cells that never become candidates; grids of 70x3, 40x40, 129x2 ... with 100 / 257 / 1025 agents for the "
+        "emptiness layer / mask) and an ORACLE-ONLY stream of float layers with non-dyadic values "
         "(0.1, 1/3, 1e300, -0.0 ...: bit-exact read-back through both views, IEEE-exact conditional set / modify, exact "
         "selection, sums within 1e-12). The whole state (every layer object through the layer view and through every cell "
         "attribute, the three name tables, emptiness and the emptiness layer / mask) is observed after every operation; "
@@ -84,6 +88,9 @@ ASSUMPTIONS = [
     "only with an operand of the layer's own dtype because np.vectorize takes its output type from the first element); the result "
     "dtype of ALL combinations NumPy determines is checked against NumPy by 144 probe operations per run; VALUES after a dtype change "
     "(e.g. int layer + float operand -> float64 layer) are not modelled",
+    "edge / scale stream (oracle only): NaN never among the candidates of an extreme-value criterion (HEAD's answer there is the empty "
+    "selection, the statement does not define it); no arithmetic on uint8 / int8 / float32 layers (wrap-around and rounding are NumPy's, "
+    "not the statement's): writes, selections, np.max / np.min, emptiness only",
     "not generated: conditions that are ufuncs, indices with fewer components than the array has axes, masks of a shape other than "
     "the grid's, NaN, PropertyLayer.from_data, pickling / deepcopy of layers (C19), per-cell capacities (C06), two grids sharing one layer object",
     "the built-in 'empty' layer is read (conditions, only_empty, aggregate) but never written or removed by the history itself "
@@ -465,6 +472,256 @@ def _bigint_cases():
     return out
 
 
+def _bigtie_cases(rng, n):
+    """int64 layers whose values lie WITHIN float64 spacing of each other (around +-2^53, 2^62, 2^63-1, ns timestamps):
+    distinct ints that collapse to one double - highest / lowest, conditions, masks, only_empty must still tell them
+    apart.  Through implementation and model (Z is unbounded)."""
+    bases = [2 ** 53, 2 ** 62, 2 ** 63 - 8, -(2 ** 53) - 6, -(2 ** 62) - 6, -(2 ** 63), 1_700_000_000_000_000_000, 2 ** 31 - 3]
+    out = []
+    for k in range(n):
+        impl = ["discrete", "legacy"][k % 2]
+        dims = rng.choice([(2, 2), (2, 3), (3, 3), (1, 4)])
+        coords = [list(c) for c in itertools.product(*(range(d) for d in dims))]
+        size = len(coords)
+        base = bases[k % len(bases)] if k < 2 * len(bases) else rng.choice(bases)
+        vals = [base + rng.randint(0, 7) for _ in range(size)]
+        if rng.random() < 0.5:
+            vals[rng.randrange(size)] = rng.choice([0, -1, 5])
+        hi_c, lo_c = coords[vals.index(max(vals))], coords[vals.index(min(vals))]
+        if impl == "discrete":
+            mk, h, cls = [["create", 1, DT_INT, 0]], 1, rng.choice(DISCRETE_CLS[:2])
+        else:
+            mk, h, cls = [["new", 1, DT_INT, list(dims), 0], ["add", 0]], 0, rng.choice(["SingleGrid", "MultiGrid"])
+        m1 = [rng.random() < 0.7 for _ in range(size)]
+        ops = [*mk, ["setarr", ["h", h], vals],
+               ["select", [], [[1, 0]], [], False, True, False], ["select", [], [[1, 1]], [], False, False, False],
+               ["select", [[1, ["ge", base + 1]]], [[1, 1]], [], False, True, True], ["select", [[1, ["le", base + 5]]], [[1, 0]], [m1], False, True, True],
+               ["place", 1, hi_c], ["place", 2, lo_c],
+               ["select", [], [[1, 0]], [], True, True, False], ["select", [], [[1, 1]], [m1], True, False, False],
+               ["cellwrite" if impl == "discrete" else "lwrite", *([coords[0], 1] if impl == "discrete" else [["n", 1], coords[0]]), base + 7],
+               ["select", [], [[1, 0]], [], False, True, False], ["agg", ["n", 1], 1], ["agg", ["n", 1], 2],
+               ["lsel", ["n", 1], ["gt", base + 3], True]]
+        out.append({"impl": impl, "cls": cls, "dims": list(dims), "cap": 0, "torus": False, "ops": ops})
+    return out
+
+
+EDGE_VALUES = {
+    "int64": [2 ** 53, 2 ** 53 + 1, 2 ** 62, 2 ** 62 + 1, 2 ** 63 - 1, 2 ** 63 - 2, -(2 ** 53) - 1, -(2 ** 62) - 1, -(2 ** 63), -(2 ** 63) + 1,
+              1_700_000_000_000_000_001, 2 ** 31, -(2 ** 31) - 1, 0, 1, -1],
+    "uint8": [0, 1, 127, 128, 254, 255], "int8": [-128, -127, -1, 0, 1, 126, 127],
+    "float32": [0.1, 16777216.0, 16777218.0, 3.0e38, -3.0e38, -0.0, 0.0, float("inf"), float("-inf"), 1e-40],
+    "float64": [float("inf"), float("-inf"), -0.0, 0.0, 1.7976931348623157e308, 5e-324, 2.0 ** 53, 2.0 ** 53 + 2, 0.1],
+    "bool": [True, False],
+}
+
+
+def _edge_cases(rng, n, big=0):
+    """oracle-only stream: layer dtypes and values at the edges (int64 around 2^53 / 2^62 / 2^63-1 and their negatives, uint8 /
+    int8 extremes, float32, inf / -inf / -0.0, NaN only in cells that never become candidates), and - `big` of them - grids far
+    larger than usual with hundreds of agents for the emptiness layer / mask"""
+    out = []
+    for k in range(n + big):
+        impl = ["discrete", "legacy"][k % 2]
+        large = k >= n
+        dims = rng.choice([(70, 3), (40, 40), (129, 2), (3, 86), (33, 32)]) if large else rng.choice([(2, 2), (2, 3), (3, 3), (1, 5), (4, 4), (8, 2)])
+        size = dims[0] * dims[1]
+        dtype = rng.choice(["int64", "int64", "int64", "uint8", "int8", "float32", "float64", "bool"])
+        pool = EDGE_VALUES[dtype]
+        if dtype == "int64" and rng.random() < 0.7:          # a cluster inside one float64 spacing
+            b = rng.choice([2 ** 53, 2 ** 62, 2 ** 63 - 40, -(2 ** 63), -(2 ** 53) - 40, 1_700_000_000_000_000_000])
+            pool = [b + j for j in range(0, 40)]
+        vals = [rng.choice(pool) for _ in range(size)]
+        nan_cells = []
+        if dtype.startswith("float") and rng.random() < 0.5:
+            nan_cells = rng.sample(range(size), k=min(size - 1, rng.randint(1, 3)))
+        multi = impl == "discrete" or rng.random() < 0.5
+        ops = []
+        n_agents = rng.choice([0, 3, size // 2]) if not large else rng.choice([100, 257, 300, 1025 if size > 1100 else 200])
+        if n_agents:
+            ops.append(["eplace", n_agents, rng.randrange(10 ** 6)])
+        for _ in range(rng.randint(5, 10)):
+            x = rng.random()
+            if x < 0.55:
+                cd = [rng.choice(CMPS), rng.choice(pool)] if rng.random() < 0.5 else None
+                mask = [rng.random() < 0.8 for _ in range(size)] if rng.random() < 0.4 else None
+                ops.append(["esel", cd, rng.choice([0, 1, 0, 1, None]), mask, rng.random() < 0.4])
+            elif x < 0.75:
+                ops.append(["ew", rng.randrange(size), rng.choice(pool), rng.randrange(3)])
+            elif x < 0.85:
+                ops.append(["eagg", rng.choice([1, 2])])
+            elif n_agents:
+                ops.append([rng.choice(["emove", "erm"]), rng.choice([1, 5, n_agents // 3 + 1]), rng.randrange(10 ** 6)])
+        out.append({"impl": impl, "cls": ("OrthogonalMooreGrid" if impl == "discrete" else ("MultiGrid" if multi else "SingleGrid")),
+                    "dims": list(dims), "cap": 0, "torus": False, "stream": "edge", "dtype": dtype, "vals": vals, "nan": nan_cells, "ops": ops})
+    return out
+
+
+def _run_edge(case):
+    """edge dtypes / values and large grids, implementation against the statement (no model): both views hold what was
+    written (as the dtype stores it), select_cells returns exactly the cells passing mask / only_empty / condition whose value is
+    the exact maximum / minimum among them (python ints compare exactly), the emptiness layer / mask equals actual emptiness"""
+    import math
+    import operator
+    import random
+    import warnings
+
+    import mesa
+    import numpy as np
+
+    warnings.simplefilter("ignore")
+    impl = case["impl"]
+    discrete = impl == "discrete"
+    dims = tuple(case["dims"])
+    coords = list(itertools.product(*(range(d) for d in dims)))
+    npdt = np.dtype(case["dtype"])
+    model = mesa.Model(seed=1)
+    arr = np.array(case["vals"], dtype=npdt).reshape(dims)
+    for j in case.get("nan", []):
+        arr[coords[j]] = np.nan
+    if discrete:
+        import mesa.discrete_space as ds
+        from mesa.discrete_space.property_layer import PropertyLayer
+
+        grid = getattr(ds, case["cls"])(dims, torus=False, random=random.Random(1))
+        Lr = PropertyLayer("p1", dims, default_value=npdt.type(0), dtype=npdt.type)
+        grid.add_property_layer(Lr)
+        Lr.data = arr
+    else:
+        import mesa.space as msp
+
+        grid = getattr(msp, case["cls"])(dims[0], dims[1], False)
+        Lr = msp.PropertyLayer("p1", dims[0], dims[1], npdt.type(0), dtype=npdt.type)
+        grid.add_property_layer(Lr)
+        Lr.set_cells(arr)
+
+    def py(v):
+        return bool(v) if npdt.kind == "b" else (int(v) if npdt.kind in "iu" else float(v))
+
+    sh = {c: py(arr[c]) for c in coords}
+    nan = {coords[j] for j in case.get("nan", [])}
+    agents, where = [], {}
+    cmpf = {"gt": operator.gt, "ge": operator.ge, "lt": operator.lt, "le": operator.le, "eq": operator.eq, "ne": operator.ne}
+    failures = []
+
+    def fail(key, i, what):
+        failures.append({"key": f"C11/{impl}/edge/{key}", "op": i, "what": what[:900]})
+
+    def occupied():
+        return set(where.values())
+
+    def put(a, c):
+        if discrete:
+            a.cell = grid._cells[c]
+        elif a.pos is None:
+            grid.place_agent(a, c)
+        else:
+            grid.move_agent(a, c)
+        where[a] = c
+
+    single = (not discrete) and "Single" in case["cls"]
+    for i, op in enumerate(case["ops"]):
+        k = op[0]
+        try:
+            if k == "eplace":
+                r = random.Random(op[2])
+                from mesa.discrete_space import CellAgent
+
+                for _ in range(op[1]):
+                    c = r.choice(coords)
+                    if single and c in occupied():
+                        continue
+                    a = CellAgent(model) if discrete else mesa.Agent(model)
+                    agents.append(a)
+                    put(a, c)
+            elif k == "emove":
+                r = random.Random(op[2])
+                for a in r.sample(list(where), k=min(op[1], len(where))):
+                    c = r.choice(coords)
+                    if single and c in occupied() and where[a] != c:
+                        continue
+                    put(a, c)
+            elif k == "erm":
+                r = random.Random(op[2])
+                for a in r.sample(list(where), k=min(op[1], len(where))):
+                    if discrete:
+                        a.cell = None
+                    else:
+                        grid.remove_agent(a)
+                    del where[a]
+            elif k == "ew":
+                c = coords[op[1] % len(coords)]
+                v = npdt.type(op[2])
+                w = [py(v) if npdt.kind != "f" else float(op[2]), v, np.array(v)][op[3]]
+                if discrete and op[3] != 1:
+                    grid._cells[c].p1 = w
+                elif discrete:
+                    Lr.data[c] = w
+                else:
+                    Lr.set_cell(c, w)
+                sh[c] = py(v)
+                nan.discard(c)
+            elif k == "eagg":
+                cand = [sh[c] for c in coords if c not in nan]
+                if cand and not nan:
+                    fn = np.max if op[1] == 1 else np.min
+                    r_ = py(Lr.aggregate(fn) if discrete else Lr.aggregate_property(fn))
+                    e_ = max(cand) if op[1] == 1 else min(cand)
+                    if r_ != e_:
+                        fail("aggregate/wrong-value", i, f"{op} on dtype {npdt}: got {r_!r}, exact {e_!r}")
+            elif k == "esel":
+                _, cd, ext, mask, oe = op
+                kw = {}
+                ok = [c for c in coords if c not in nan]                 # NaN cells never become candidates
+                m = np.zeros(dims, dtype=bool)
+                for j, c in enumerate(coords):
+                    m[c] = (c not in nan) and (mask is None or mask[j])
+                kw["masks"] = m
+                cand = [c for j, c in enumerate(coords) if c in ok and (mask is None or mask[j])]
+                if oe:
+                    kw["only_empty"] = True
+                    occ = occupied()
+                    cand = [c for c in cand if c not in occ]
+                if cd is not None:
+                    q = py(npdt.type(cd[1]))
+                    kw["conditions"] = {"p1": lambda a, f=cmpf[cd[0]], q=q: f(a, npdt.type(q) if npdt.kind != "i" else q)}
+                    cand = [c for c in cand if cmpf[cd[0]](sh[c], q)]
+                if ext is not None:
+                    kw["extreme_values"] = {"p1": ["highest", "lowest"][ext]}
+                    if cand:
+                        t = (max if ext == 0 else min)(sh[c] for c in cand)
+                        cand = [c for c in cand if sh[c] == t]
+                got = [tuple(int(x) for x in c) for c in grid.select_cells(**kw)]
+                gm = np.asarray(np.ma.getdata(grid.select_cells(return_list=False, **kw))).astype(bool)
+                gmc = [c for c in coords if gm[c]]
+                if got != cand or gmc != cand:
+                    extra = [c for c in got if c not in cand][:5]
+                    fail("select_cells/wrong-cells", i,
+                         f"select_cells(condition={cd}, extreme={ext}, mask={'yes' if mask else 'no'}, only_empty={oe}) on a {npdt} layer {dims}: "
+                         f"list form has {len(got)} cells, mask form {len(gmc)}, exactly {len(cand)} qualify {cand[:5]}; e.g. wrongly selected {extra} "
+                         f"holding {[sh[c] for c in extra]} while the extreme is {sh[cand[0]] if cand else None}")
+        except Exception as e:  # noqa: BLE001
+            fail(f"{k}/unexpected-exception", i, f"{op} on dtype {npdt} raised {type(e).__name__}: {e}")
+            break
+        # both views hold the written values, exactly
+        data = Lr.data
+        bad = [c for c in coords if c not in nan and (py(data[c]) != sh[c] or (npdt.kind == "f" and math.copysign(1, float(data[c])) != math.copysign(1, sh[c])))]
+        if bad:
+            fail(f"{k}/wrong-values", i, f"after {op}: {npdt} layer at {bad[0]} holds {py(data[bad[0]])!r}, written {sh[bad[0]]!r}")
+            for c in bad:
+                sh[c] = py(data[c])
+        if discrete and k in ("ew",):
+            badc = [c for c in coords if c not in nan and py(grid._cells[c].p1) != py(data[c])]
+            if badc:
+                fail("one-value/cell-vs-layer", i, f"after {op}: cell{badc[0]}.p1 != layer value")
+        if k in ("eplace", "emove", "erm"):
+            occ = occupied()
+            em = grid._mesa_property_layers["empty"].data if discrete else grid.empty_mask
+            wrong = [c for c in coords if bool(em[c]) != (c not in occ)]
+            if wrong:
+                fail("empty/mismatch", i, f"after {op} ({len(where)} agents on {dims}): emptiness layer / mask wrong at {len(wrong)} cells, e.g. {wrong[:3]}")
+    return {"obs": [], "failures": failures, "model": False}
+
+
 def _probe_cases():
     """every (layer dtype, form, operation, operand dtype) of the DSL whose result dtype NumPy fixes: the dtype
     modify_cells leaves behind, against Model/PropLayer.v:dtype_result (C11_dtype_boundary)"""
@@ -495,6 +752,9 @@ def gen_cases(rng, tier):
     cases += _probe_cases()
     cases += _float_cases(rng, 60 if tier == "quick" else 600)
     cases += _bigint_cases()
+    # SCALE / rare-value streams (harness/SCALE_NOTE.md)
+    cases += _bigtie_cases(rng, 16 if tier == "quick" else 200)
+    cases += _edge_cases(rng, 40 if tier == "quick" else 500, big=4 if tier == "quick" else 40)
     # the structured agent histories (every rejection, shared and full cells) also go through the model
     for c in enumerate_cases("quick"):
         if c["ops"] and (c["ops"][0][0] == "place" or any(o[0] in ("mrel", "nmask") for o in c["ops"])):
@@ -608,6 +868,9 @@ def enumerate_cases(tier, broken=False):
                            ["place", 1, c0], ["place", 2, c0], ["place", 3, c1], *sel, ["move", 3, c0], ["move", 1, c0],
                            ["move", 1, c1], *sel, ["rm", 2], ["rm", 1], *sel, ["rm", 3], *sel, ["place", 2, c0], ["move", 2, c0], *sel]
                     yield {"impl": impl, "cls": cls, "dims": list(dims), "cap": 0, "ops": ops}
+    # scale / edge streams: many more when something broke or in the thorough tier
+    yield from _bigtie_cases(rng, 120)
+    yield from _edge_cases(rng, 300, big=20)
     # random histories with more selects
     for i in range(200 if tier == "quick" else 1500):
         yield _random_case(rng)
@@ -1206,6 +1469,8 @@ def run_impl(case):
 
     if case.get("stream") == "float":
         return _run_float(case)
+    if case.get("stream") == "edge":
+        return _run_edge(case)
     warnings.simplefilter("ignore")
     R = _Run(case)
     obs = []
@@ -1802,7 +2067,7 @@ def _op(case, op, extra=None):
 
 
 def coq_case(case):
-    if case.get("stream") == "float":        # oracle-only stream: nothing for the model to run
+    if case.get("stream") in ("float", "edge"):        # oracle-only streams: nothing for the model to run
         return "{| c_discrete := true; c_multi := false; c_cap := 0; c_dims := [1; 1]; c_ops := [] |}"
     extras = case.get("_ops_for_model") or [{}] * len(case["ops"])
     if len(extras) != len(case["ops"]):
@@ -1813,8 +2078,8 @@ def coq_case(case):
 
 
 def op_kinds(case):
-    if case.get("stream") == "float":
-        return [f"{case['impl']}:float-stream/{op[0]}" for op in case["ops"]]
+    if case.get("stream") in ("float", "edge"):
+        return [f"{case['impl']}:{case['stream']}-stream/{op[0]}" for op in case["ops"]]
     out = []
     for op in case["ops"]:
         k = op[0]
